@@ -125,7 +125,10 @@ type orch struct {
 	bin        string
 	treeHash   string
 	buildS     float64
+	built      map[string]builtHarness // by harness name (primary harness and the arms of the check)
 }
+
+type builtHarness struct{ workDir, bin string }
 
 func (o *orch) goEnv() []string {
 	env := os.Environ()
@@ -140,30 +143,50 @@ func (o *orch) goEnv() []string {
 	return append(out, "GOFLAGS=-mod=mod", "GOPROXY=off", "GOWORK=off")
 }
 
-// build regenerates the overlay from the current /repo tree and builds the harness test binary.
+// build regenerates the overlay from the current /repo tree and builds the test binary of the check's
+// primary harness and of every additional arm.
 func (o *orch) build() error {
 	t0 := time.Now()
-	h := harnesses[o.c.Harness]
-	if h == nil {
-		return fmt.Errorf("no harness %q", o.c.Harness)
+	o.built = map[string]builtHarness{}
+	names := []string{o.c.Harness}
+	for _, a := range o.c.Arms {
+		names = append(names, a.Harness)
 	}
-	o.workDir = filepath.Join(verifDir, ".work", o.c.Harness+"-"+o.c.Property)
-	os.RemoveAll(o.workDir)
-	if err := os.MkdirAll(o.workDir, 0o755); err != nil {
+	for _, name := range names {
+		if _, done := o.built[name]; done {
+			continue
+		}
+		if err := o.buildHarness(name); err != nil {
+			return err
+		}
+	}
+	o.workDir, o.bin = o.built[o.c.Harness].workDir, o.built[o.c.Harness].bin
+	o.buildS = time.Since(t0).Seconds()
+	return nil
+}
+
+func (o *orch) buildHarness(name string) error {
+	h := harnesses[name]
+	if h == nil {
+		return fmt.Errorf("no harness %q", name)
+	}
+	workDir := filepath.Join(verifDir, ".work", name+"-"+o.c.Property)
+	os.RemoveAll(workDir)
+	if err := os.MkdirAll(workDir, 0o755); err != nil {
 		return err
 	}
-	ov, treeHash, err := makeOverlay(h, o.workDir, o.goEnv())
+	ov, treeHash, err := makeOverlay(h, workDir, o.goEnv())
 	if err != nil {
 		return err
 	}
 	o.treeHash = treeHash
-	ovPath := filepath.Join(o.workDir, "overlay.json")
+	ovPath := filepath.Join(workDir, "overlay.json")
 	b, _ := json.MarshalIndent(map[string]any{"Replace": ov}, "", " ")
 	if err := os.WriteFile(ovPath, b, 0o644); err != nil {
 		return err
 	}
-	o.bin = filepath.Join(o.workDir, "harness.test")
-	args := []string{"test", "-c", "-overlay", ovPath, "-tags", "verif", "-vet=off", "-o", o.bin}
+	bin := filepath.Join(workDir, "harness.test")
+	args := []string{"test", "-c", "-overlay", ovPath, "-tags", "verif", "-vet=off", "-o", bin}
 	if h.Race {
 		args = append(args, "-race")
 	}
@@ -175,7 +198,7 @@ func (o *orch) build() error {
 	if err != nil {
 		return fmt.Errorf("go %s: %v\n%s", strings.Join(args, " "), err, out)
 	}
-	o.buildS = time.Since(t0).Seconds()
+	o.built[name] = builtHarness{workDir, bin}
 	return nil
 }
 
@@ -196,6 +219,32 @@ func (o *orch) cfg() tierCfg {
 	return t
 }
 
+// armOf: the last workers of a check are given to its additional arms (other harnesses serving the same property).
+func (o *orch) armOf(i, nw int, primary tierCfg) (string, tierCfg) {
+	pos := nw
+	for _, a := range o.c.Arms {
+		n := a.Workers
+		if n > nw/2 {
+			n = nw / 2
+		}
+		if n < 1 && nw > 1 {
+			n = 1
+		}
+		pos -= n
+		if i >= pos && i < pos+n && nw > 1 {
+			t := a.Quick
+			if o.tier == "thorough" {
+				t = a.Thorough
+			}
+			if o.budget > 0 {
+				t.budget = o.budget
+			}
+			return a.Harness, t
+		}
+	}
+	return o.c.Harness, primary
+}
+
 func (o *orch) nWorkers() int {
 	if o.workers > 0 {
 		return o.workers
@@ -211,31 +260,36 @@ func (o *orch) nWorkers() int {
 }
 
 func (o *orch) runWorker(spec *sim.Spec, idx string) (*sim.WorkerResult, error, bool) {
-	specPath := filepath.Join(o.workDir, "spec-"+idx+".json")
-	spec.OutPath = filepath.Join(o.workDir, "out-"+idx+".json")
+	bh, ok := o.built[spec.Harness]
+	if !ok {
+		return nil, fmt.Errorf("harness %q is not built for this check", spec.Harness), true
+	}
+	workDir, bin := bh.workDir, bh.bin
+	specPath := filepath.Join(workDir, "spec-"+idx+".json")
+	spec.OutPath = filepath.Join(workDir, "out-"+idx+".json")
 	os.Remove(spec.OutPath)
 	b, _ := json.Marshal(spec)
 	if err := os.WriteFile(specPath, b, 0o644); err != nil {
 		return nil, err, true
 	}
-	h := harnesses[o.c.Harness]
+	h := harnesses[spec.Harness]
 	gmp := envOr("VERIF_GOMAXPROCS", strconv.Itoa(h.GoMaxProcs))
 	args := []string{"-test.run", "^" + h.TestName + "$", "-test.count=1", "-test.cpu", gmp, "-test.timeout", "12h"}
 	if o.dump {
 		args = append(args, "-test.v")
 	}
-	cmd := exec.Command(o.bin, args...)
-	cmd.Dir = o.workDir
+	cmd := exec.Command(bin, args...)
+	cmd.Dir = workDir
 	cmd.Env = append(os.Environ(), "VERIF_SPEC="+specPath)
 	if h.MemLimitMB > 0 {
 		// virtual-memory limit through the shell so that a hostile allocation cannot hurt the sandbox
-		sh := fmt.Sprintf("ulimit -v %d; exec %s %s", h.MemLimitMB*1024, o.bin, strings.Join(args, " "))
+		sh := fmt.Sprintf("ulimit -v %d; exec %s %s", h.MemLimitMB*1024, bin, strings.Join(args, " "))
 		cmd = exec.Command("bash", "-c", sh)
-		cmd.Dir = o.workDir
+		cmd.Dir = workDir
 		cmd.Env = append(os.Environ(), "VERIF_SPEC="+specPath)
 	}
 	out, err := cmd.CombinedOutput()
-	logPath := filepath.Join(o.workDir, "log-"+idx+".txt")
+	logPath := filepath.Join(workDir, "log-"+idx+".txt")
 	os.WriteFile(logPath, out, 0o644)
 	if o.dump {
 		os.Stdout.Write(out)
@@ -286,12 +340,19 @@ func (o *orch) run() int {
 		wg.Add(1)
 		go func(i int) {
 			defer wg.Done()
+			hname, hcfg := o.armOf(i, nw, cfg)
 			spec := &sim.Spec{
-				Property: o.c.Property, Harness: o.c.Harness, Tier: o.tier, Seed: o.seed,
-				Worker: int64(i), Workers: int64(nw), MaxRuns: cfg.maxRuns, DeadlineSec: cfg.budget,
-				RunTimeoutS: o.c.RunTimeoutS, ShrinkBudget: cfg.shrink, MaxViol: 3, Params: o.c.Params, KnownSigs: ksigs,
+				Property: o.c.Property, Harness: hname, Tier: o.tier, Seed: o.seed,
+				Worker: int64(i), Workers: int64(nw), MaxRuns: hcfg.maxRuns, DeadlineSec: hcfg.budget,
+				RunTimeoutS: o.c.RunTimeoutS, ShrinkBudget: hcfg.shrink, MaxViol: 3, Params: o.c.Params, KnownSigs: ksigs,
 			}
 			res, err, _ := o.runWorker(spec, fmt.Sprintf("w%02d", i))
+			if res != nil {
+				for k := range res.Violations {
+					res.Violations[k].Harness = hname
+				}
+				res.Stats["arm_runs:"+hname] += res.Runs
+			}
 			results[i] = wr{res, err}
 		}(i)
 	}
@@ -353,11 +414,15 @@ func (o *orch) run() int {
 			continue
 		}
 		seenSig[v.Signature] = true
-		rp := &sim.Replay{Property: v.Property, Harness: o.c.Harness, Tier: o.tier, Seed: v.Seed, Run: v.Run,
+		vh := v.Harness
+		if vh == "" {
+			vh = o.c.Harness
+		}
+		rp := &sim.Replay{Property: v.Property, Harness: vh, Tier: o.tier, Seed: v.Seed, Run: v.Run,
 			Params: o.c.Params, Tape: v.Tape, Class: v.Class, Signature: v.Signature, Message: v.Message, Log: v.Log,
 			RepoRev: repoRev(), TreeHash: o.treeHash}
 		// fresh-process confirmation
-		spec := &sim.Spec{Property: o.c.Property, Harness: o.c.Harness, Tier: o.tier, Seed: v.Seed, Replay: rp,
+		spec := &sim.Spec{Property: o.c.Property, Harness: vh, Tier: o.tier, Seed: v.Seed, Replay: rp,
 			RunTimeoutS: o.c.RunTimeoutS, Params: o.c.Params}
 		res, err, _ := o.runWorker(spec, "confirm")
 		if err != nil {
@@ -432,7 +497,11 @@ func (o *orch) replay(path string) int {
 	if params == nil {
 		params = o.c.Params
 	}
-	spec := &sim.Spec{Property: o.c.Property, Harness: o.c.Harness, Tier: rp.Tier, Seed: rp.Seed, Replay: &rp,
+	rh := rp.Harness
+	if _, ok := o.built[rh]; !ok {
+		rh = o.c.Harness
+	}
+	spec := &sim.Spec{Property: o.c.Property, Harness: rh, Tier: rp.Tier, Seed: rp.Seed, Replay: &rp,
 		RunTimeoutS: o.c.RunTimeoutS, Params: params, DumpLog: o.dump}
 	res, err, _ := o.runWorker(spec, "replay")
 	if err != nil {
